@@ -134,6 +134,34 @@ func c08Judge(c c08Case) error {
 		if d := digest(sim.RunApp(c.Cfg, app, init, budget, nil)); d != r0 {
 			return fmt.Errorf("%s: third use of one parsed program gives %s, a freshly parsed program %s", c.Cfg, d, r0)
 		}
+	case "reuse-chain":
+		// one parsed program serves a chain of machines: first the case's
+		// configuration from another state (deep speculation leaves operands
+		// installed in squashed instructions), then every forwarding variant at
+		// parallelism 1 and 2 from the case's state; each must compute what it
+		// computes with a freshly parsed program
+		app, err := risc.Parse(text)
+		if err != nil {
+			return nil
+		}
+		other := ref.State{Mem: append([]int8(nil), init.Mem...)}
+		for i := range other.Mem {
+			other.Mem[i] ^= int8(i*37 + 11)
+		}
+		for i := 1; i < 32; i++ {
+			other.Reg[i] = init.Reg[i]*3 + int32(i)
+		}
+		_ = sim.RunApp(c.Cfg, app, other, budget, nil)
+		_ = sim.RunApp(c.Cfg, app, init, budget, nil)
+		for _, v := range []string{"mvp6-1", "mvp6-2", "mvp6-3", "mvp7-0", "mvp7-1", "mvp8-0"} {
+			for par := 1; par <= 2; par++ {
+				cfg := sim.Config{Variant: v, Par: par}
+				fresh := digest(sim.Run(cfg, text, init, budget, nil))
+				if d := digest(sim.RunApp(cfg, app, init, budget, nil)); d != fresh {
+					return fmt.Errorf("%s: re-using a program parsed once for a chain of machines (first %s) gives %s, a freshly parsed program %s", cfg, c.Cfg, d, fresh)
+				}
+			}
+		}
 	case "child":
 		d, err := childDigest(c)
 		if err != nil {
@@ -221,7 +249,7 @@ func TestC08(t *testing.T) {
 		// each case is judged on a drawn subset of configurations (the relations
 		// cost a dozen runs each)
 		k := rapid.IntRange(0, len(cfgs)-1).Draw(rt, "cfg0")
-		rel := []string{"repeat", "after-others", "concurrent", "reuse-same", "reuse-other", "reuse-other-state", "concurrent", "reuse-other-state"}[int(gen.Mix(rapid.Uint64().Draw(rt, "relation"))%8)]
+		rel := []string{"repeat", "after-others", "concurrent", "reuse-same", "reuse-other", "reuse-other-state", "concurrent", "reuse-other-state", "reuse-chain", "reuse-chain"}[int(gen.Mix(rapid.Uint64().Draw(rt, "relation"))%10)]
 		if rapid.IntRange(0, 19).Draw(rt, "child") == 0 {
 			rel = "child"
 		}
@@ -237,6 +265,13 @@ func TestC08(t *testing.T) {
 			cfg := cfgs[(k+j*7)%len(cfgs)]
 			if devOnly(cfg) {
 				continue
+			}
+			if rel == "reuse-chain" {
+				// the first machine of the chain: a forwarding variant at parallelism 3 or 4
+				if j >= 2 {
+					break
+				}
+				cfg = sim.Config{Variant: []string{"mvp6-1", "mvp6-2", "mvp6-3", "mvp7-0", "mvp7-1", "mvp8-0"}[(k+j*5)%6], Par: 3 + (k+j)%2}
 			}
 			h.Config(cfg.String())
 			cc := c08Case{Case: *c, Cfg: cfg, Relation: rel, Other: cfgs[(k+j*7+11)%len(cfgs)]}
